@@ -897,6 +897,9 @@ func sweep(prop, tier, bin string, base int64, cfg tierCfg, workers int, deadlin
 			sr.violations = append(sr.violations, v)
 		} else {
 			sr.trouble = fmt.Sprintf("worker %d stopped at seed %d (%s) but the case neither hangs nor crashes when re-run alone", h.w, sd, firstLine(h.beat))
+			if hangTrouble != "" {
+				sr.trouble = fmt.Sprintf("worker %d stalled at seed %d: %s", h.w, sd, hangTrouble)
+			}
 		}
 	}
 	return sr
@@ -960,6 +963,20 @@ func confirmHang(prop, tier, bin string, seed int64, cfg tierCfg, beat string) *
 				Detail: "a script goroutine runs interpreter code without ever polling its context (no yield point reached within the watchdog period); running goroutine:\n" + spin}}
 		}
 		if strings.Contains(rp.lastHB, "cancel-delivered") || strings.Contains(rp.lastHB, "must-finish") {
+			// nobody runs interpreter code: somebody inside the bubble is blocked on something the simulator does
+			// not own (a channel made outside the bubble, a real mutex). Whether that is the property's business
+			// depends on WHO is blocked: a goroutine in the middle of evaluating a script (frames of runInfoStruct)
+			// is a script that cannot be interrupted; a helper goroutine of the implementation parked between two
+			// jobs (a worker pool, a registry sweeper) is a limit of this harness, not a verdict.
+			kind, blk := blockedOutsideTheSimulation(out + ".stderr")
+			switch kind {
+			case "script":
+				return &violation{seed: seed, c: c, hang: true, res: &harness.Result{Violation: "hang", Signature: "hang: script blocked uninterruptibly",
+					Detail: "after the cancel was delivered a goroutine stays blocked in the middle of evaluating a script, in an operation that does not watch its context (not a channel operation of the script: those are owned by the simulator):\n" + blk}}
+			case "helper":
+				hangTrouble = "the tree parks helper goroutines of its own on a primitive the simulator does not own (created outside the simulation; no script is being evaluated by the blocked goroutine), so simulated runs never reach quiescence: no verdict from the simulation on this tree; blocked goroutine:\n" + blk
+				return nil
+			}
 			return &violation{seed: seed, c: c, hang: true, res: &harness.Result{Violation: "hang", Signature: "hang:" + rp.lastHB,
 				Detail: "the case never reaches quiescence again (a task spins without polling its context): " + rp.lastHB}}
 		}
@@ -1377,6 +1394,46 @@ func selftest(props []string) int {
 	fmt.Println("selftest: deterministic")
 	cleanup()
 	return 0
+}
+
+// hangTrouble is set by confirmHang when a stall is the harness's limit rather than a verdict.
+var hangTrouble string
+
+// blockedOutsideTheSimulation looks at the SIGQUIT stack dump of a stalled worker for goroutines of the bubble
+// that are blocked but NOT durably (the runtime marks durable blocks "(durable)": everything the simulator owns
+// blocks durably). It returns "script" and the stack when such a goroutine is in the middle of evaluating a
+// script, "helper" when only goroutines without interpreter evaluation frames are, "" when there is none.
+func blockedOutsideTheSimulation(stderrPath string) (string, string) {
+	b, err := os.ReadFile(stderrPath)
+	if err != nil {
+		return "", ""
+	}
+	helper := ""
+	for _, blk := range strings.Split(string(b), "\n\n") {
+		first := firstLine(blk)
+		if !strings.HasPrefix(first, "goroutine ") || !strings.Contains(first, "synctest bubble") || strings.Contains(first, "(durable)") {
+			continue
+		}
+		if strings.Contains(first, "[running") || strings.Contains(first, "[runnable") || strings.Contains(first, "[syscall") {
+			continue
+		}
+		if !strings.Contains(blk, "github.com/mattn/anko/") {
+			continue
+		}
+		if len(blk) > 2500 {
+			blk = blk[:2500]
+		}
+		if strings.Contains(blk, "github.com/mattn/anko/vm.(*runInfoStruct).") {
+			return "script", blk
+		}
+		if helper == "" {
+			helper = blk
+		}
+	}
+	if helper != "" {
+		return "helper", helper
+	}
+	return "", ""
 }
 
 // spinningInInterpreter looks at the SIGQUIT stack dump of a stalled worker: it
